@@ -117,7 +117,8 @@ class Dot15d4Metadata(Metadata):
         if self.channel is not None:
             tlv.append(Dot15d4TAP_TLV_Hdr()/Dot15d4TAP_Channel_Assignment(channel_number=self.channel,
                                                                           channel_page=0))
-            channel_frequency = channel_to_frequency(self.channel) * 1000
+            # TAP channel center frequency is expressed in kHz (channel_to_frequency returns Hz)
+            channel_frequency = channel_to_frequency(self.channel) / 1000
             tlv.append(Dot15d4TAP_TLV_Hdr()/Dot15d4TAP_Channel_Center_Frequency(channel_frequency=channel_frequency))
         return Dot15d4TAP_Hdr(data=tlv), timestamp
 
